@@ -179,7 +179,11 @@ func write(req *protocol.Request, w network.Writer, usingProxy bool) error {
 		if bytes.Equal(req.Method(), bytestr.StrConnect) {
 			ruri = uri.Host()
 		} else if usingProxy {
+			// absolute-form: the full URI without its fragment (a fragment is never sent)
 			ruri = uri.FullURI()
+			if n := len(uri.Hash()); n > 0 {
+				ruri = ruri[:len(ruri)-n-1]
+			}
 		}
 
 		req.Header.SetRequestURIBytes(ruri)
